@@ -318,6 +318,31 @@ def check_c19(prog, rep, tier, cfg):
         inv = [c for c in iv.calls() if "invalid_value" in (c.callee or "")]
         fl = iv.calls_to("encoding_rs::Encoding::for_label")
         rep.check(len(inv) == 1 and len(fl) == 1, R, "unknown-encoding-is-error", "an unknown encoding label is not rejected", instance={"for_label": len(fl), "invalid_value": len(inv)})
+        # the decision table of the visitor: `native` only for the word itself, a named encoding only for what for_label() knows, else an error
+        from table import Table, TooComplex, render
+        try:
+            tb = Table(prog, iv, inline=1, opaque=("for_label", "eq_ignore_ascii_case", "invalid_value"))
+            rows = tb.rows
+        except TooComplex as e:
+            rows = None
+            rep.fail(R, "encoding-visitor:table", "InternalEncodingVisitor::visit_str is no longer a decision table: %s" % e)
+        if rows is not None:
+            bad = []
+            for cons, res in rows:
+                r = render(res)
+                pos = [c for c in cons if c[0] == "cond" and c[2] != 0 and re.match(r"^(eq_ignore_ascii_case|eq)\(.*NATIVE_ENCODING_NAME.*\)$", str(c[1]))]
+                some = [c for c in cons if c[0] == "is" and c[2] == "Some" and str(c[1]).startswith("for_label(")]
+                if r == "Ok(Native)":
+                    if not pos:
+                        bad.append("the platform encoding is chosen without the value being the word `native` (conditions: %s)" % [str(c[1])[:60] + ("" if c[2] else " = false") for c in cons if c[0] == "cond"])
+                elif r.startswith("Ok(Named("):
+                    if not some or "for_label(" not in r:
+                        bad.append("a named encoding is produced that is not the result of Encoding::for_label: %s" % r[:80])
+                elif not r.startswith("Err("):
+                    bad.append("unexpected result %s" % r[:80])
+            rep.check(not bad, R, "encoding-visitor:native-only-for-the-word",
+                      "the `encoding` option accepts a value that is neither `native` nor a known label: %s" % bad[:2], where="%s:%d" % (iv.file, iv.line),
+                      instance={"rows": len(rows), "results": sorted({render(res)[:40] for _, res in rows})})
     # ---------------------------------------------------------------- C19.c configuration errors come first
     R = "C19.c"
     fm = prog.body("pasfmt::format")
